@@ -1546,6 +1546,11 @@ class Data(BaseCartesianData):
         for comp, data in mapping.items():
             if isinstance(comp, ComponentID):
                 comp = self.get_component(comp)
+            if isinstance(comp, (DerivedComponent, CoordinateComponent)):
+                # The values of these components are computed (and _data is
+                # the parent dataset rather than an array)
+                raise TypeError("Cannot update the values of derived or "
+                                "coordinate components")
             data = np.asarray(data)
             if data.shape != self.shape:
                 raise ValueError("Cannot change shape of data")
